@@ -357,9 +357,16 @@ def run_one(tape, only=None):
                     log_before = len(net.log) + len(fast_log)
                     if w["config"] == "io":
                         net.mode, net.k = o["net"], o["net_k"]
-                    state["nontrivial"] += _do_op(
-                        o, w, V, probe, SRTM30, cache, net, fast_log, present_before,
-                        log_before, faults, state["had_fault"], outcomes)
+                    try:
+                        state["nontrivial"] += _do_op(
+                            o, w, V, probe, SRTM30, cache, net, fast_log,
+                            present_before, log_before, faults, state["had_fault"],
+                            outcomes)
+                    except AssertionError:
+                        raise
+                    except Exception as e:  # noqa: typhon raised where nothing was injected
+                        V.append(_viol(f"C20/{o['op']}/exception/{type(e).__name__}",
+                                       f"{o['op']}: {type(e).__name__}: {e}"[:300]))
                     if w["config"] == "io" and net.log[log_before:] and \
                             net.log[-1][1] != "ok":
                         state["had_fault"] = True
